@@ -208,8 +208,9 @@ def c08_worker(item):
         res["evals"] = 1
         out = cli.check_push_outcome(res, ws, work, rr, first, gcount, sig0, [binary] + args)
         if not out:
-            # the C05 oracle failed: that is C05's finding, not a metadata verdict
-            res["violations"] = [v for v in res["violations"] if v["sig"].get("class") == "crash"]
+            # a wrong tree or exit status is C05's finding, not a metadata verdict; a crash and a wrong
+            # applied-patches file ("gains exactly the applied names in series order") are C08's own
+            res["violations"] = [v for v in res["violations"] if v["sig"].get("class") in ("crash", "applied-patches")]
             res.count("runs-not-judged-(C05-oracle-failed)")
             return res
         k, exp_tree, fail_idx, obs = out
@@ -1718,19 +1719,23 @@ def c06_worker(item):
     seed, binary = item
     r = random.Random(seed * 715225741 + 6)
     res = Res()
-    if r.random() < 0.12:
+    x = r.random()
+    if x < 0.12:
         return c06_cleanup_race(r, seed, binary, res)
+    if x < 0.22:
+        return c06_rotation(r, seed, binary, res)
     cfg = wsgen.GenConfig(p_fail=0.65, max_patches=r.choice([3, 5, 8]), max_files=r.choice([3, 6, 8]), max_ops=r.choice([2, 3, 4]))
     cfg.kinds = ["modify"] * 6 + ["create"] * 2 + ["delete"] * 3 + ["rename"] * 3 + ["chmod", "truncate", "fill"]
     cfg.p_second_fail = 0.5
     ws = wsgen.generate(seed, cfg)
     nthreads = r.choice([2, 3, 4, 8, 16])
     backup = r.choice(["always", None, "never"])
+    bcount = r.choice([None, None, None, 0, 1, 2, "all"])
     verbosity = r.choice(["-q", "-q", None])
     dry = r.random() < 0.1
     common_tail = (["--dry-run"] if dry else []) + ["push", "-a"]
-    a_seq = base_args(threads=1, backup=backup, verbosity=verbosity) + common_tail
-    a_par = base_args(threads=nthreads, backup=backup, verbosity=verbosity) + common_tail
+    a_seq = base_args(threads=1, backup=backup, backup_count=bcount, verbosity=verbosity) + common_tail
+    a_par = base_args(threads=nthreads, backup=backup, backup_count=bcount, verbosity=verbosity) + common_tail
     with Scratch("c06") as scr:
         orig, wseq = fresh(scr, ws, 0)
         r1 = runner.run_rq(binary, wseq, a_seq)
@@ -1808,6 +1813,111 @@ def c06_worker(item):
         if seed % 60 == 37:
             res["sample"] = {"workspace": ws.describe(), "threads": nthreads, "args": a_par, "schedules_run": [t for t, _ in scripts], "example_script": scripts[0][1][:6] if scripts else None,
                              "interleaving_signatures": sorted(repr(s) for s in sigs), "exit": r1.rc}
+    return res
+
+
+def c06_rotation(r, seed, binary, res):
+    """directed shape for the distribution of file patches: a "log rotation" series - the oldest file is deleted, every
+    other one is renamed to the next name (so each name is first seen before the file that is later renamed to it),
+    a fresh first file is created, and some of the rotated files are patched afterwards"""
+    k = r.randint(3, 6)
+    base = r.choice(["log", "var/log/app.log", "bak/data"])
+    names = ["%s.%d" % (base, i) for i in range(k)]
+    tree = {}
+    for i, nme in enumerate(names):
+        tree[nme] = (b"generation %d\nline a\nline b\nline c\n" % i, 0o644)
+    tree["unrelated.txt"] = (b"u\n", 0o644)
+    ws = wsgen.Workspace()
+    ws.seed = seed
+    ws.t0 = dict(tree)
+    ws.trees = [dict(tree)]
+    patches = []
+
+    def add(ops, git):
+        p = wsgen.PatchSpec("r%02d.patch" % len(patches), ops, 1, False, git)
+        wsgen.render_patch(p, r)
+        patches.append(p)
+        ws.trees.append(dict(tree))
+
+    one_patch_per_step = r.random() < 0.6
+    ops = []
+    last = names[-1]
+    o = wsgen.Op("delete", last, pre=tree[last][0], post=None, pre_mode=0o644, post_mode=None)
+    o.style = "git"
+    ops.append(o)
+    del tree[last]
+    if one_patch_per_step:
+        add(ops, True)
+        ops = []
+    for i in range(k - 2, -1, -1):
+        src, dst = names[i], names[i + 1]
+        data = tree[src][0]
+        post = data + (b"rotated\n" if r.random() < 0.5 else b"")
+        o = wsgen.Op("rename", src, new_path=dst, pre=data, post=post, pre_mode=0o644, post_mode=0o644)
+        o.style = "git"
+        o.ctx = 3
+        ops.append(o)
+        del tree[src]
+        tree[dst] = (post, 0o644)
+        if one_patch_per_step:
+            add(ops, True)
+            ops = []
+    o = wsgen.Op("create", names[0], pre=None, post=b"fresh\n", pre_mode=None, post_mode=0o644)
+    o.style = "git"
+    ops.append(o)
+    tree[names[0]] = (b"fresh\n", 0o644)
+    add(ops, True)
+    # patch some rotated files afterwards
+    for nme in r.sample(names, r.randint(1, min(3, k))):
+        data = tree[nme][0]
+        post = data + b"patched later\n"
+        o = wsgen.Op("modify", nme, pre=data, post=post, pre_mode=0o644, post_mode=0o644)
+        o.style = r.choice(["plain", "git"])
+        tree[nme] = (post, 0o644)
+        add([o], o.style == "git")
+    ws.patches = patches
+    nthreads = r.choice([2, 3, 4, 5, 8, 16])
+    backup = r.choice(["always", None])
+    a_seq = base_args(threads=1, backup=backup, verbosity="-q") + ["push", "-a"]
+    a_par = base_args(threads=nthreads, backup=backup, verbosity="-q") + ["push", "-a"]
+    with Scratch("c06rot") as scr:
+        orig, wseq = fresh(scr, ws, 0)
+        r1 = runner.run_rq(binary, wseq, a_seq)
+        res["evals"] += 1
+        # the sequential run itself is checked against the ground truth of the rotation
+        out = cli.check_push_outcome(res, ws, wseq, r1, 0, len(ws.patches), {"shape": "rotation", "driver": "seq"}, [binary] + a_seq)
+        if not out:
+            return res
+        o1 = out[3]
+        wpar = os.path.join(scr, "par")
+        runner.copy_ws(orig, wpar)
+        r2 = runner.run_rq(binary, wpar, a_par)
+        res["evals"] += 1
+        if r2.timed_out:
+            res["inconclusive"] = "watchdog"
+            return res
+        o2 = cli.observe(wpar)
+        what = None
+        if r2.crashed():
+            what = "crash"
+        elif r2.rc != r1.rc:
+            what = "exit-status"
+        elif o1["tree"] != o2["tree"] or o1["dirs"] != o2["dirs"]:
+            what = "tree"
+        elif o1["pc"] != o2["pc"]:
+            what = "pc"
+        elif o1["applied"] != o2["applied"]:
+            what = "applied-patches"
+        if what:
+            res.viol({"class": "parallel-differs", "what": what, "schedule": "natural", "shape": "rotation"},
+                     "rotation of %d files, threads=%d: %s differs from the single-threaded run; par rc %s stderr: %s" % (k, nthreads, what, r2.rc, r2.err.decode("utf-8", "replace")[-300:]),
+                     orig, [binary] + a_par, extra={"workspace": ws.describe()})
+            return res
+        res.count("parallel-runs-compared")
+        res.count("schedule:natural")
+        res.count("rotation-shape-runs")
+        res.count("held-workspaces")
+        res["nontrivial"].append(case_key("rotation", k, base, one_patch_per_step, nthreads, cli.ws_shape_key(ws)))
     return res
 
 
